@@ -203,10 +203,21 @@ def _generate_donor(seed: int, tier: str) -> dict:
             o["s"] = s
         program += ops
         if s in noisy:
-            for kind in rf.sample(["add_column_new", "open_hook", "edit_prices", "read_helpers"], rf.choice([1, 1, 2])):
+            kinds = ["add_column_new", "open_hook", "edit_prices", "read_helpers"]
+            aave_names = [mw_["name"] for mw_ in world["markets"] if mw_.get("kind") == "aave"]
+            if aave_names:
+                kinds += ["edit_risk", "edit_risk"]
+            for kind in rf.sample(kinds, rf.choice([1, 1, 2])):
                 m = rf.choice(names)
                 b = rf.randint(-1, nb - 1)
-                if kind == "edit_prices":
+                if kind == "edit_risk":
+                    program.append({"s": s, "bar": rf.choice([-1, -1, 0, b]), "phase": "initialize" if b == -1 else "before_bar", "m": rf.choice(aave_names),
+                                    "op": "c19.edit_risk_parameters", "a": {"row": rf.randint(0, 5), "scale": rf.choice(["0.8", "0.5", "0.9"])}})
+                    if program[-1]["bar"] == -1:
+                        program[-1]["phase"] = "initialize"
+                    elif program[-1]["phase"] == "initialize":
+                        program[-1]["phase"] = "before_bar"
+                elif kind == "edit_prices":
                     program.append({"s": s, "bar": b, "phase": "initialize" if b == -1 else "before_bar", "m": None, "op": "c19.edit_prices",
                                     "a": {"col": rf.randint(0, 3), "row": rf.randint(0, 40), "scale": rf.choice(["3", "0.5"])}})
                 elif kind == "read_helpers":
@@ -565,7 +576,30 @@ def _read_helpers(sim, m, a):
         for P, L, H in ((Decimal(2000), Decimal(1000), Decimal(1500)), (Decimal(900), Decimal(1000), Decimal(1500)), (Decimal(1200), Decimal(1000), Decimal(1500))):
             g = get_greeks(P, L, H)
             out.append([g.delta, g.gamma])
+        # indicator helpers on a Decimal series (as the bollinger-band sample does with a pool's price column)
+        from datetime import timedelta
+        from demeter.indicator import realized_volatility, simple_moving_average
+
+        idx = pd.date_range("2023-01-01", periods=24, freq="1min")
+        ser = pd.Series([Decimal(1500) + Decimal((7 * i * i) % 31) / Decimal(3) for i in range(24)], index=idx)
+        vol = realized_volatility(ser, timedelta(minutes=3), timedelta(hours=1))
+        sma = simple_moving_average(ser.astype(float), timedelta(minutes=4))
+        out.append([str(vol.iloc[-1]), str(sma.iloc[-1])])
         return out
+
+    return call
+
+
+@op("c19.edit_risk_parameters")
+def _edit_risk_parameters(sim, m, a):
+    """a what-if strategy edits the risk-parameter table of ITS OWN run's lending market in place"""
+
+    def call():
+        rp_ = m.risk_parameters
+        j = int(a.get("row", 0)) % len(rp_.index)
+        col = "reserveLiquidationThreshold"
+        rp_.loc[rp_.index[j], col] = rp_.loc[rp_.index[j], col] * D(a.get("scale", "0.8"))
+        return [str(rp_.index[j]), str(rp_.loc[rp_.index[j], col])]
 
     return call
 
